@@ -71,6 +71,13 @@ prop("C05",
      unit_ops={"fmtstr"},
      assumptions=["ryu/itoa: a printed number is accepted when it denotes exactly the value written (Spec/Num.v)"])
 
+prop("C15",
+     rule="random operation histories (3..25 steps) over the public mutation API: new values (parsed documents, json!, From, empty), clone of a subtree, drop, pointer read, and at a random (sometimes perturbed) path: push/pop/insert/remove/swap_remove/truncate/clear/len on arrays, insert/remove/get/contains_key/entry().or_insert/IndexMut on objects, assignment, take; donors are clones of subtrees of other live values; after every step the result and the sorted dump of every live value are compared with the reference model run on the same history",
+     assumptions=["Rust ownership: two owned Values do not alias (why the reference can be a tree model)", "documents without duplicate names (F6 otherwise)"])
+prop("C16",
+     rule="the same random histories (3..30 steps) with, after every step, for every arena reachable from a live value: Arc strong count (hook) = number of live root-kind values pointing into it (walked through owned containers); then all values dropped in a random order with the survivors read in between",
+     assumptions=["Arc's counter is atomic (std); cross-thread schedules are not explored by this check", "the counting allocator check of 'all memory released' is left to the thorough tier"])
+
 def classify_known(pid, case, known):
     """return the id of the recorded known finding this mismatch belongs to, or None"""
     for k in known:
